@@ -180,6 +180,7 @@ type Options struct {
 	Go126    bool   // build/run the harness with go1.26.8 (synctest)
 	Race     bool
 	Env      []string
+	EnvFn    func(dir string) []string // extra environment depending on the case directory
 	Patterns []string // goderive package patterns (default ./p)
 	Args     []string // goderive flags
 	Timeout  time.Duration
@@ -246,6 +247,9 @@ func RunCase(c *pkit.Ctx, rt *rapid.T, s *Subject, o Options) *Outcome {
 		"VERIF_FINDINGS="+filepath.Join(gorun.VerifDir(), "known_findings.json"), "VERIF_ACTIVE_IDS="+strings.Join(activeIDs, ","),
 		"VERIF_TIER="+c.Tier)
 	env = append(env, o.Env...)
+	if o.EnvFn != nil {
+		env = append(env, o.EnvFn(dir)...)
+	}
 	to := o.Timeout
 	if to == 0 {
 		to = 20 * time.Minute
